@@ -697,7 +697,93 @@ def rule_o7(ctx, facts):
                       "the list is consumed at %s and again at %s on one path" % (twice[0].span, twice[1].span)))
 
 
+def rule_o8(ctx, facts):
+    """retire loops: a loop that walks a superseded list with a cursor and retires the node under the cursor may only be left when the
+    cursor is exhausted (null, or equal to the sentinel it is compared with) or after the current node has been retired -- leaving on
+    any other test (e.g. `next.is_null()` before the retire) strands the node the cursor stands on: it is unreachable and never freed"""
+    from .analysis import loop_blocks
+    an = anchors(facts)
+    n = 0
+    for b in facts.bodies:
+        fl = flow(b)
+        loops = []
+        for be in back_edges(b, unwind=False):
+            if not b.is_cleanup(be[1]):
+                loops.append((be, loop_blocks(b, be, unwind=False)))
+        for c in b.calls:
+            if b.is_cleanup(c.b):
+                continue
+            k = an.is_retire(c)
+            if k is None or k >= len(c.args):
+                continue
+            inner = [(be, L) for be, L in loops if c.b in L]
+            if not inner:
+                continue
+            (tail, head), loop = min(inner, key=lambda x: len(x[1]))      # the innermost loop around the retire
+            if True:
+                cur = op_root(c.args[k])
+                if cur is None:
+                    continue
+                # the locals the retired pointer was copied from (backwards only: `let mut p = bin` must not make `bin` a cursor)
+                cset = {cur}
+                stack = [cur]
+                while stack:
+                    x0 = stack.pop()
+                    for kind0, data0, pt0 in fl.sources(x0):
+                        if kind0 == "copy" and data0 not in cset:
+                            cset.add(data0)
+                            stack.append(data0)
+                # the cursor is advanced inside this loop by following a link of the node it stood on
+                advanced = False
+                for l in cset:
+                    for pt, kind, data in b.defs.get(l, []):
+                        if pt[0] not in loop or kind not in ("assign", "call"):
+                            continue
+                        for x in fl.call_roots(l):
+                            if x is not None and x.b in loop and is_link_load(x) == "load" and x.args and op_root(x.args[0]) is not None \
+                                    and ("node::Node", "next") in receiver_field(b, x, 0) \
+                                    and (cset & fl.closure_locals(op_root(x.args[0]))):
+                                advanced = True
+                if not advanced:
+                    continue
+                # the cursor variable proper: the member of the set that is carried around the loop (defined inside and outside it);
+                # `next`, which only ever holds the successor, is not it
+                carried = {l for l in cset if any(d[0][0] in loop for d in b.defs.get(l, []) if d[1] != "arg")
+                           and any(d[0][0] not in loop or d[1] == "arg" for d in b.defs.get(l, []))}
+                n += 1
+                outside = [x for x in range(len(b.blocks)) if x not in loop]
+                pre = reach(b, [Point(head, 0)], avoid={c.point}, avoid_blocks=outside)
+                bad = None
+                for u in sorted(loop):
+                    if b.term_point(u) not in pre:
+                        continue
+                    for v, lab in b.term_succ(u, False):
+                        if v in loop:
+                            continue
+                        cd = cond_of(b, u)
+                        ok_exit = False
+                        if cd and cd["kind"] == "is_null" and cd.get("arg") in carried and cd["true"] == v:
+                            ok_exit = True
+                        if cd and cd["kind"] == "ptr_eq" and (cd.get("a") in carried or cd.get("b") in carried):
+                            ok_exit = True
+                        if b.term(v)["k"] == "unreachable" or (b.call_at(v) is not None and b.call_at(v).target is None):
+                            ok_exit = True      # panics / unreachable!()
+                        if not ok_exit:
+                            bad = (u, v)
+                if bad:
+                    ctx.inst("O8", b, "retire loop over `%s`" % (b.local_name(cur) or "_%d" % cur), b.term(bad[0])["span"], False,
+                             "the loop that retires the nodes of a superseded list can be left at %s while the cursor still stands on a node that has "
+                             "not been retired (the exit is not a test of the cursor itself): that node is unreachable and never freed" % b.term(bad[0])["span"])
+                else:
+                    ctx.inst("O8", b, "retire loop over `%s`" % (b.local_name(cur) or "_%d" % cur), c.span, True,
+                             "left only when the cursor is exhausted, or after the current node was retired")
+    if n < 2:
+        ctx.fail_closed("O8: expected the retire loops of transfer (list arm) and treeify_bin, found %d" % n)
+
+
 def run(ctx, facts):
+    ctx.rule("O8", "a loop retiring the nodes of a superseded list is left only when its cursor is exhausted", floor=2)
+    rule_o8(ctx, facts)
     ctx.rule("O7", "a private list of fresh tree nodes is handed to exactly one of TreeBin::new / drop_tree_nodes on every path", floor=3,
              floor_note="transfer low/high, treeify_bin hd")
     rule_o7(ctx, facts)
